@@ -76,66 +76,138 @@ CHECKS = {
               'genhtml.py run against the implementation + HTML parser oracle'),
 
  'C01': dict(
-    text='partial: the executable model covers scanner, expander with all '
-         'handlers (cleveref excepted), blank-line pass, get_txt_pos, phrase '
-         'replacement and language splitting; proved so far are the '
-         'algorithm-level lemmas listed in coq/props/C01.v; the invariant over '
-         'all expansion steps is decided by the differential run and the '
-         'oracle, not yet by a theorem',
-    ref='6/C01', technique='Coq model + lemmas; extracted-model differential '
-         'run on the parser stream x option matrix; statement oracle; CLI --nums'),
+    text='partial. Theorems for every input: equal length of text and '
+         'position list for every returned text, end to end through the whole '
+         'model of tex2txt() (C01_lengths); range 1..len(source) for '
+         'everything in front of and behind the expander: scanner tokens with '
+         'their whole extent (specials table obligation re-proved on the '
+         'tables generated from /repo), error marks incl. the split mark, '
+         'get_txt_pos, phrase replacement (no new position), multi-language '
+         'split incl. placeholders, the +1 of the wrapper '
+         '(C01_range_behind_expander). Not a theorem: that the expander '
+         'keeps token positions and extents inside the text; this premise is '
+         'checked on every generated case by the oracle and the '
+         'correspondence run',
+    ref='6/C01, 11.2', technique='Coq proof (end-to-end length theorem, range '
+         'lemmas) + extracted-model differential run on the parser stream x '
+         'option matrix + statement oracle + CLI --nums'),
  'C02': dict(
-    text='partial: model as for C01; faithfulness of copied text is decided '
-         'by the differential run and the marker-word oracle; theorems so far '
-         'are the algorithm-level lemmas in coq/props/C02.v',
-    ref='6/C02', technique='Coq model + lemmas; differential run; marker-word oracle'),
+    text='partial. Theorems for every input: every scanner token that is not '
+         'pinned holds exactly the source characters at its position (text, '
+         'verbatim, \\verb, comments, macro names, special sequences), '
+         'get_txt_pos reports for each character of such a token the offset '
+         'where the source holds it, a special sequence is recognised and '
+         'replaced at its first character. Not a theorem: that the expander '
+         'moves copied tokens unchanged (arguments, \\text in maths, '
+         'footnotes); decided by the differential run and the copy oracle',
+    ref='6/C02, 11.2', technique='Coq proof (scanner faithfulness, get_txt_pos) '
+         '+ differential run + marker-word / copy oracle'),
  'C03': dict(
-    text='partial: model as for C01; conservation of words and absence of '
-         'hidden text are decided by the differential run and the generator '
-         'oracle; theorems so far: lemmas in coq/props/C03.v',
-    ref='6/C03', technique='Coq model + lemmas; differential run; word / hidden-text oracle'),
+    text='partial. Theorems for every input: the removal of pure action '
+         'lines keeps every non-blank character in order and invents none; '
+         'the language split holds exactly text and positions of the stream; '
+         'a macro use yields the body with each argument as often as named; '
+         'plain documents are conserved end to end (C06). Not a theorem: '
+         'what each macro / environment / the maths parser keeps or hides; '
+         'decided by the marker-word oracle and the differential run',
+    ref='6/C03, 11.2', technique='Coq proof (conservation lemmas) + '
+         'differential run + word / hidden-text oracle'),
  'C04': dict(
-    text='partial: model as for C01 (cleveref unmodelled: oracle only); span '
-         'containment is decided by the differential run and the span oracle '
-         'over every catalogue entry',
-    ref='6/C04', technique='Coq model + lemmas; differential run; span oracle over the catalogue'),
+    text='partial. Theorems per generating step: tokens made for citations, '
+         'theorem titles, headings (full stop), user macro bodies, inline '
+         'formulas, simple-mode equations and error marks are pinned at the '
+         'first token of the construct or at one of its argument tokens. Not '
+         'a theorem: remaining handlers (cleveref unmodelled: oracle only) '
+         'and that the positions handed to the steps are those of the '
+         'construct; decided by the span oracle over every catalogue entry '
+         'and the differential run',
+    ref='6/C04, 11.2', technique='Coq proof (site theorems) + differential run '
+         '+ span oracle over the catalogue'),
  'C05': dict(
-    text='partial: executable model of the blank-line pass and the scanner; '
-         'the layout claims are decided by the differential run and a TeX '
-         'white-space reference over enumerated layouts',
-    ref='6/C05', technique='Coq model + lemmas; layout enumerator; TeX reference oracle'),
+    text='partial. Theorems for every token list: the pass that removes '
+         'lines emptied by markup terminates, deletes white space only, and '
+         'deletes nothing where no markup vanished (source blank lines stay). '
+         'Not a theorem: that exactly the emptied lines go and that every '
+         'vanishing construct leaves an action token; decided by the layout '
+         'enumerator with a TeX white-space reference and the differential run',
+    ref='6/C05, 11.2', technique='Coq proof (totality, conservation, identity '
+         'without action tokens) + layout enumerator + TeX reference oracle'),
  'C06': dict(
-    text='partial: executable model; exhaustive strings over the alphabet of '
-         'the property compared with the model and with the documented table',
-    ref='6/C06', technique='Coq model + lemmas; exhaustive small strings; table oracle'),
+    text='first claim complete on the model: for every input without active '
+         'characters, every language, package, class selection and fuel, '
+         'tex2txt() returns the input with positions 1..n '
+         '(C06_plain_prose_fixed_point, end to end through scanner, expander '
+         'loop, action-line pass, get_txt_pos, wrapper; table obligations '
+         're-proved on the generated tables). Second claim: longest match, '
+         'copy of other characters and the replacement step are theorems, '
+         'the table is compared with the documented one by computation; '
+         'multi-language mode and replacement files are outside the '
+         'fixed-point theorem',
+    ref='6/C06, 11.2', technique='Coq proof (end-to-end fixed point, longest '
+         'match) + exhaustive small strings against model and table'),
  'C07': dict(
-    text='partial: the model makes every partial Python operation explicit '
-         '(result type with Exc); absence of exceptions on the malformed '
-         'stream is decided by the differential run (outcome classes) with a '
-         'time limit per case; no termination theorem',
-    ref='6/C07', technique='Coq model with explicit exceptions and fuel; malformed-input differential run'),
+    text='partial. Theorems for every input: scanner, removal of pure action '
+         'lines (the work-list loop whose termination is not evident), phrase '
+         'replacement and multi-language split terminate within the fuel the '
+         'model passes and return no exception. Not a theorem: the same for '
+         'the expander; decided by the differential run of outcome classes '
+         'on the malformed stream with a time limit per case; non-termination '
+         'caused by self-calling or multiplying definitions of the document '
+         'is classified as outside the claim by a counting re-run',
+    ref='6/C07, 11.2', technique='Coq proof (totality of four passes; model with '
+         'explicit exceptions and fuel) + malformed-input differential run'),
  'C08': dict(
-    text='partial: model of latex_error and all error sites; diagnostics and '
-         'mark positions compared with the model; fault-injection oracle',
-    ref='6/C08', technique='Coq model + lemmas; fault injector; differential run'),
+    text='partial. Theorems: latex_error gives line and column of the '
+         'position, the complete mark, pinned, first character at the '
+         'position; scanner and expander record a diagnostic in the very step '
+         'that makes a mark; plain text gives neither. Not a theorem: that '
+         'each detection site passes the position of the faulty construct and '
+         'loses no text behind it; decided by the fault injector and the '
+         'differential run (diagnostics and marks compared)',
+    ref='6/C08, 11.2', technique='Coq proof (latex_error, mark/diagnostic '
+         'pairing) + fault injector + differential run'),
  'C09': dict(
-    text='partial: model of \\newcommand / \\def / generate_replacements; '
-         'generator with its own TeX substitution semantics; three supply '
-         'routes compared',
-    ref='6/C09', technique='Coq model + lemmas; definition-set generator; route comparison'),
+    text='partial. Theorems for every body and argument list: the '
+         'replacement is the body with #n replaced by the n-th argument, in '
+         'order; argument tokens unchanged, other tokens pinned inside the '
+         'use; an undeclared name is not expanded. Not a theorem: parsing of '
+         'definition commands and actual arguments, independence of the '
+         'source of the definitions; decided by the definition-set generator '
+         '(own TeX substitution semantics), route comparison and the '
+         'differential run',
+    ref='6/C09, 11.2', technique='Coq proof (substitution) + definition-set '
+         'generator + route comparison'),
  'C10': dict(
-    text='partial: model of the maths parser; formula enumerator with the '
-         'statement of the property as oracle; per-language rotation',
-    ref='6/C10', technique='Coq model + lemmas; formula enumerator; differential run'),
+    text='partial. Theorems: a formula that is one maths part becomes exactly '
+         'one placeholder (head of the rotated inline collection of the '
+         'current language) with optional blanks and final punctuation, all '
+         'pinned at the first maths token; rotation is cyclic, the k-th '
+         'formula gets entry k mod n, neighbours differ (collections of /repo '
+         'checked by computation). Not a theorem: the maths parser cutting '
+         'the formula out of the stream, \\text parts; decided by the '
+         'formula enumerator and the differential run',
+    ref='6/C10, 11.2', technique='Coq proof (one part, rotation) + formula '
+         'enumerator + differential run'),
  'C11': dict(
-    text='partial: model of the maths parser; equation enumerator; structural '
-         'oracle; exact placeholder sequence by the differential run',
-    ref='6/C11', technique='Coq model + lemmas; equation enumerator; differential run'),
+    text='partial. Theorems: simple mode gives one placeholder plus final '
+         'punctuation at the start of the equation; removed equation '
+         'environments leave at most their punctuation; rotation lemmas as '
+         'C10. Not a theorem: the row/section scheme of the full mode; '
+         'decided by the equation enumerator with a structural oracle, exact '
+         'placeholder sequence by the differential run',
+    ref='6/C11, 11.2', technique='Coq proof (simple mode, removal) + equation '
+         'enumerator + differential run'),
  'C12': dict(
-    text='partial: executable model of get_txt_pos_ml and the babel handlers; '
-         'language labels, positions, placeholder rule and word equality with '
-         'the single-language run by generator oracle and differential run',
-    ref='6/C12', technique='Coq model + lemmas; nested-language generator; differential run'),
+    text='partial. Theorems for every token stream: language tokens only cut '
+         'the stream (sections together = text and positions of the stream: '
+         'each word in exactly one part, same words as the single-language '
+         'run), every part has equal lengths and only positions of the '
+         'stream, the split terminates without exception. Not a theorem: '
+         'that the label of a section is the language in force and the '
+         'threshold rule; decided by the nested-language generator oracle '
+         'and the differential run',
+    ref='6/C12, 11.2', technique='Coq proof (conservation, positions, totality) '
+         '+ nested-language generator + differential run'),
  'C17': dict(
     text='structural: the model is a function of document, options and files; '
          'the generated inventory of module-level state is an obligation '
@@ -143,10 +215,14 @@ CHECKS = {
          'check over call histories and server request sequences',
     ref='6/C17', technique='Coq obligation on generated inventory + history differential (fresh process vs sequence, HTTP)'),
  'C19': dict(
-    text='partial: model of the unknowns bookkeeping inside the expander; '
-         'list compared with the model and with the generator oracle; shell '
-         '--list-unknown output',
-    ref='6/C19', technique='Coq model + lemmas; differential run; generator oracle'),
+    text='partial. Theorems: the step that meets an undeclared macro outside '
+         'maths appends its name unless listed (no repetition, order of first '
+         'use), inside maths leaves the list alone, and never lists a declared '
+         'name. Not a theorem: that no other step touches the list and which '
+         'uses the expander reaches; decided by the generator oracle, the '
+         'differential run and the shell --list-unknown output',
+    ref='6/C19, 11.2', technique='Coq proof (list discipline of the step) + '
+         'differential run + generator oracle'),
 }
 
 NOT_YET = {}
